@@ -8,7 +8,7 @@ ID = "C11"
 LEVEL = "exploration"
 TECHNIQUE = "hook-2 event count + reference-model replay (R3): number of rewrites <= budget, stream after exactly that many reference steps, 'still rewritable' test on the output, error flag; budgets swept around every family's exact need, under ASan+UBSan"
 FLAVOURS = [("asan", "generated")]
-RULE = ("self-reproducing, mutually recursive, linearly growing, shrinking, exactly-k-step and slot-duplicating macro sets x pass budgets "
+RULE = ("self-reproducing, mutually recursive, linearly growing, shrinking, exactly-k-step, empty-bodied and slot-duplicating macro sets x pass budgets "
         "{1..20, 63, 64, 65, 1023, 1024} (and k-1, k, k+1 around the exact need k) through apply_macros, and budget 1024 through compile; the hook must "
         "fire at most `budget` times, the output must equal the reference stream after exactly that many steps, a too-many-substitutions error must be "
         "present whenever the reference can still rewrite the output (and absent when the expansion finished earlier; allowed when exactly the budget "
@@ -38,6 +38,12 @@ def families(r):
         F.append(("shrink%d" % k, "DEFINE eat <ID> <ID> AS eat $1 END DEFINE\neat " + " ".join("v%d" % i for i in range(k)), k - 1, 1024))
     for k in (1, 3, 6, 17, 64):
         F.append(("uses%d" % k, "DEFINE NOP AS n_ := 0 END DEFINE\n" + " ; ".join(["NOP"] * k), k, 1024))
+    # macros with an EMPTY body: the budget runs out right after a substitution that produced no token at all
+    for k in (1, 2, 5, 17, 64):
+        F.append(("skip%d" % k, "DEFINE SKIP AS END DEFINE\nx := 1 " + " ".join(["SKIP"] * k), k, 1024))
+    F.append(("skip-self", "DEFINE PRIO 9 SKIP AS END DEFINE\nDEFINE ping AS SKIP ping END DEFINE\nx := 1 ping", None, 200))
+    F.append(("skip-only", "DEFINE SKIP AS END DEFINE\n" + " ".join(["SKIP"] * 30), 30, 64))
+    F.append(("skip-1100", "DEFINE SKIP AS END DEFINE\nx := 1 " + " ".join(["SKIP"] * 1100), 1100, 1024))
     # divergent sets whose half-expanded stream is a perfectly valid program
     F.append(("valid-leftover-self", "DEFINE <ID> := 0 AS $0 := 0 END DEFINE\nx0 := 0", None, 1024))
     F.append(("valid-leftover-flip", "DEFINE <ID> := 0 AS $0 := 1 END DEFINE\nDEFINE <ID> := 1 AS $0 := 0 END DEFINE\nx0 := 0", None, 1024))
@@ -74,7 +80,7 @@ def plan(tier, seed):
                 if b >= 1000:
                     specs.append({"mode": "macro", "runs": [(fi, b)]})
     for fi, f in enumerate(fams):
-        if f[3] >= 1024 and (tier != "quick" or f[0] in ("self", "mutual", "chain5", "uses3", "grow-linear", "chain65", "valid-leftover-self", "valid-leftover-flip", "valid-leftover-grow")):
+        if f[3] >= 1024 and (tier != "quick" or f[0] in ("self", "mutual", "chain5", "uses3", "grow-linear", "chain65", "valid-leftover-self", "valid-leftover-flip", "valid-leftover-grow", "skip-1100")):
             specs.append({"mode": "compile", "runs": [(fi, 1024)]})
     # compile a divergent set right after its terminating twin in the same process
     specs.append({"mode": "compile", "runs": [(1, 1024), (0, 1024)]})
@@ -93,7 +99,7 @@ def _work(spec):
             part["evals"] += 1
             if common.abnormal(ID, case, o, part, "while compiling a divergent macro set"):
                 continue
-            divergent = need is None
+            divergent = need is None or need > 1024
             budget_err = any("too many macro substitutions" in e[1] for e in o["errors"])
             if divergent and o["ok"]:
                 part["violations"].append({"signature": "unfinished-expansion-passed-on", "message":
